@@ -127,6 +127,9 @@ func (rt *runtime) tryCatchEvaluate(inner func() Value) (tryValue Value, isExcep
 				caught = excep.eject()
 			}
 			switch caught := caught.(type) {
+			case interruptPanic:
+				// An interrupt is not an exception of the script: it must not be caught by it.
+				panic(caught)
 			case ottoError:
 				isException = true
 				tryValue = objectValue(rt.newErrorObjectError(caught))
